@@ -540,6 +540,10 @@ class AliasAnalysis:
                                 self.sites += 1
                                 self._judge(f, n, a, src(n)[:120], f"{g.where} modifies its parameter `{p}` in place")
                                 self._judge_query(f, n, a, g, p)
+        # 4. state SHARED between two objects: self.X is (on some path of construction) another object's attribute taken without a copy
+        #    (`other.X`, possibly handed on through super().__init__(X=...)), and a method modifies self.X in place: the other object's
+        #    results change with it
+        self._shared_state()
         # 3. PUBLIC value-returning functions that modify an array parameter in place (also through a slice view of it): whoever calls
         #    them with an array of their own gets that array changed behind their back, whatever the repository's own call sites pass
         for g in self.funcs:
@@ -562,6 +566,78 @@ class AliasAnalysis:
                     self.findings.append(("impure", g, site[0], site[1], f"{g.where} returns a value and also modifies its parameter `{p}` in place "
                                           "(directly or through a view of it): the caller's array is not the same after the call"))
         return self
+
+    def _shared_state(self):
+        by_cls = {}
+        for f in self.funcs:
+            if f.cls is not None:
+                by_cls.setdefault(f.cls.qualname, []).append(f)
+        classes = {f.cls.qualname: f.cls for f in self.funcs if f.cls is not None}
+
+        def local_defs(fn):
+            d = {}
+            for n in _walk_fn(fn.node):
+                if isinstance(n, ast.Assign) and len(n.targets) == 1 and isinstance(n.targets[0], ast.Name):
+                    d.setdefault(n.targets[0].id, []).append(n.value)
+            return d
+
+        def foreign(expr, fn, depth=0):
+            """-> description if expr may be an attribute of ANOTHER object (a parameter's attribute), taken by reference"""
+            if depth > 4:
+                return None
+            params = [a.arg for a in fn.node.args.posonlyargs + fn.node.args.args + fn.node.args.kwonlyargs]
+            if isinstance(expr, ast.Attribute) and isinstance(expr.value, ast.Name) and expr.value.id in params and expr.value.id not in ("self", "cls"):
+                return f"{src(expr)} in {fn.where}"
+            if isinstance(expr, ast.Name):
+                for v in local_defs(fn).get(expr.id, []):
+                    r = foreign(v, fn, depth + 1)
+                    if r:
+                        return r
+                if expr.id in params and fn.name.split(".")[-1] == "__init__" and fn.cls is not None:
+                    # bound by super().__init__(...) of a subclass constructor
+                    for q, c in classes.items():
+                        if c is fn.cls or fn.cls not in c.mro():
+                            continue
+                        sub_init = c.methods.get("__init__")
+                        if sub_init is None:
+                            continue
+                        for call in _walk_fn(sub_init.node):
+                            if isinstance(call, ast.Call) and isinstance(call.func, ast.Attribute) and call.func.attr == "__init__" and \
+                                    isinstance(call.func.value, ast.Call) and isinstance(call.func.value.func, ast.Name) and call.func.value.func.id == "super":
+                                pos = [p_ for p_ in params if p_ != "self"]
+                                bound = dict(zip(pos, call.args))
+                                bound.update({k.arg: k.value for k in call.keywords if k.arg})
+                                if expr.id in bound:
+                                    r = foreign(bound[expr.id], sub_init, depth + 1)
+                                    if r:
+                                        return r
+            return None
+        shared = {}          # (class qualname, attr) -> description
+        for f in self.funcs:
+            if f.cls is None:
+                continue
+            for n in _walk_fn(f.node):
+                if isinstance(n, ast.Assign) and len(n.targets) == 1 and isinstance(n.targets[0], ast.Attribute) and \
+                        isinstance(n.targets[0].value, ast.Name) and n.targets[0].value.id == "self":
+                    r = foreign(n.value, f)
+                    if r:
+                        shared[(f.cls.qualname, n.targets[0].attr)] = r
+        if not shared:
+            return
+        for f in self.funcs:
+            if f.cls is None or f.name.split(".")[-1] == "__init__":
+                continue
+            for node, recv, desc in self._mutation_sites(f):
+                root = recv
+                while isinstance(root, ast.Subscript):
+                    root = root.value
+                if isinstance(root, ast.Attribute) and isinstance(root.value, ast.Name) and root.value.id == "self":
+                    for c in f.cls.mro():
+                        d = shared.get((c.qualname, root.attr))
+                        if d:
+                            self.findings.append(("shared", f, node, desc, f"self.{root.attr} may be the very array of another object ({d}, no copy) "
+                                                  f"and is modified in place here"))
+                            break
 
     def _judge_query(self, f, node, arg, g, p):
         """a QUERY (a function of another class / module level that returns a value other than that parameter) which also modifies
@@ -693,6 +769,8 @@ def check_aliases(ctx, repo: Repo, pid: str, module_names: List[str], report_mod
                 "impure": "a public, value-returning function modifies the array it is given in place: a caller that uses the same array again "
                           "(a second assignment, a pseudotrajectory generated afterwards) computes from the modified values, so results depend "
                           "on what was called before",
+                "shared": "an attribute that one object takes over from another object without copying it is modified in place: the other object "
+                          "computes from the modified array afterwards, so its results depend on what was called on its twin",
                 "query": "a value-returning helper modifies, in place, the array it is given, and a method hands it the object's own input "
                          "attribute: after that call every result computed from the attribute uses the modified values (results depend on "
                          "the history of calls)"}[kind]
